@@ -71,13 +71,14 @@ def rk_dyn(eng, st, pre):
 
 class FnContract:
     def __init__(self, qual, cases, requires=None, loops=None, setup=None, tags=(), doc='', stream_models=('bytesio',),
-                 pure=False, self_fields=None):
+                 pure=False, self_fields=None, lemmas=()):
         self.qual, self.cases, self.loops, self.tags, self.doc = qual, cases, loops or {}, tuple(tags), doc
         self.requires = requires or (lambda pre: [])
         self.setup = setup
         self.stream_models = stream_models
         self.self_fields = self_fields
         self.stream_arg = 'stream'
+        self.lemmas = tuple(lemmas)
 
     # ------------------------------------------------------------------ signature
     def bind(self, eng, node, selfv, args, kws, st):
@@ -194,6 +195,10 @@ class FnContract:
         pre = View(eng, st.clone(), selfv, dict(args, **({'self': selfv} if selfv is not None else {})))
         for label, cond in self.requires(pre):
             st.assume(cond)
+        from .lemma import LEMMAS
+        for ln in self.lemmas:
+            st.assume(LEMMAS[ln].as_hyp())
+        eng.loop_extra = {'pre': pre}
         res = VerifyResult(self, stream_model)
         try:
             finals = eng.block(node.body, st)
@@ -211,6 +216,10 @@ class FnContract:
                 res.out_of_reach = 'flow %r escapes function' % (flow,)
                 return res
             kind = flow[0]
+            if kind == 'raise' and flow[1].cls.op == 'int' and flow[1].cls.args[0] == src.exc_code['Unmodelled']:
+                eng.emit(fs, '%s/path%d/unmodelled-path-infeasible' % (fname, pi), t.FALSE, kind='unmodelled', tags=self.tags,
+                         meta={'origin': flow[1].origin})
+                continue
             post = View(eng, fs, selfv, pre.args)
             if kind == 'return':
                 post.result = flow[1]
